@@ -3,7 +3,7 @@ CONSTANTS
   Replicas = {"r1"}
   MaxLog = 10
   MaxBatch = 3
-  Chunk = 3
+  Chunk = 2
   MaxNet = 4
   MaxQ = 6
   MaxFaults = 6
